@@ -364,7 +364,7 @@ POOL_2D_H4 = [0, 3, 5, 12, 17, 30, 33, 48, 51, 63]      # 10 of the 64 leaves of
 POOL_2D_H3 = list(range(16))
 POOL_3D_H3 = [0, 7, 9, 27, 36, 56, 62, 63]              # 8 of the 64 leaves of the 3-D height-3 tree
 POOL_3D_H4 = [0, 7, 64, 73, 292, 438, 504, 511]
-POOL_4D_H3 = [0, 15, 17, 85, 170, 240, 255]
+POOL_4D_H3 = [0, 1, 17, 85, 170, 240, 255]              # (0 and 1 differ in the last coordinate only, 0 and 17 diagonally)
 
 
 def std_configs(tier, hists=("full",), stops=(2,), bss=(1, 2, 3, 20), small=False):
@@ -1111,9 +1111,11 @@ def check_c10(run):
           ("per-2d-h2", fmm_constants(2, 2, range(4), periodic=True, maxparts=2, stops=(1,), bss=(1, 2, 20), hists=("ptop",), aboves=(-1, 0, 1) if q else (-1, 0, 1, 2))),
           ("per-inner-1d-h4", fmm_constants(1, 4, range(8), periodic=True, maxparts=4, stops=(1,), bss=(1, 2, 3, 20), hists=("full",))),
           ("per-tsm-1d-h3", fmm_constants(1, 3, range(4), periodic=True, mode="tsm", maxparts=2, stops=(1,), bss=(1, 2), hists=("ptop",), aboves=(-1, 0, 1, 2)))]
+    # target/source top tree in 2-D: level-1 groups of the source tree with holes (cells 0 and 2, 0 and 3, 1 and 3 in one group), targets elsewhere
+    cs.append(("per-tsm-2d-h2", fmm_constants(2, 2, range(4), periodic=True, mode="tsm", maxparts=2, stops=(1,), bss=(1, 2), hists=("ptop",), aboves=(0, 1) if q else (-1, 0, 1, 2))))
     if not q:
         cs.append(("per-3d-h2", fmm_constants(3, 2, [0, 3, 5, 7], periodic=True, maxparts=2, stops=(1,), bss=(1, 20), hists=("ptop",), aboves=(-1, 0))))
-        cs.append(("per-tsm-2d-h2", fmm_constants(2, 2, range(4), periodic=True, mode="tsm", maxparts=2, stops=(1,), bss=(1, 2), hists=("ptop",), aboves=(-1, 0, 1))))
+        cs.append(("per-tsm-2d-h3", fmm_constants(2, 3, [0, 6, 9, 15], periodic=True, mode="tsm", maxparts=2, stops=(1,), bss=(1, 2, 20), hists=("ptop",), aboves=(0, 1))))
     run_fmm_configs(run, "C10", cs, cap=1024)
     # code -> spec: the in-box part (wrapped lists, stop level 1) recorded on large random periodic trees, sequential / OpenMP / target-source, validated by TLC
     trace_campaign(run, "C10", run.tier, modes=(0, 1), periodic=True, events=4,
@@ -1266,6 +1268,8 @@ def matrix_cells(tier):
     cells.append(dict(DIMV=3, REAL_T="double", ORDERV=1, AUTOBS=1, REBUILDV=1, EXECV=2))
     cells.append(dict(DIMV=2, REAL_T="double", ORDERV=0, AUTOBS=0, REBUILDV=0, EXECV=0, NRHS=0))
     cells.append(dict(DIMV=3, REAL_T="float", ORDERV=0, AUTOBS=1, REBUILDV=0, EXECV=1, NRHS=0))
+    cells.append(dict(DIMV=1, REAL_T="double", ORDERV=0, AUTOBS=0, REBUILDV=1, EXECV=0, NEXTRA=0))
+    cells.append(dict(DIMV=2, REAL_T="float", ORDERV=0, AUTOBS=1, REBUILDV=1, EXECV=0, NEXTRA=0))
     return cells + DENSE_CELLS
 
 
@@ -1316,7 +1320,9 @@ def matrix_run(run, cells, iters, kinds=None):
 
 REBUILD_CELLS = [dict(DIMV=1, REAL_T="float", ORDERV=0, AUTOBS=0, REBUILDV=1, EXECV=0), dict(DIMV=2, REAL_T="float", DATA_T="double", ORDERV=0, AUTOBS=0, REBUILDV=1, EXECV=0),
                  dict(DIMV=3, REAL_T="double", ORDERV=1, AUTOBS=0, REBUILDV=1, EXECV=0), dict(DIMV=3, REAL_T="double", ORDERV=2, AUTOBS=0, REBUILDV=1, EXECV=0),
-                 dict(DIMV=2, REAL_T="double", ORDERV=0, AUTOBS=1, REBUILDV=1, EXECV=2), dict(DIMV=4, REAL_T="float", ORDERV=0, AUTOBS=0, REBUILDV=1, EXECV=0)]
+                 dict(DIMV=2, REAL_T="double", ORDERV=0, AUTOBS=1, REBUILDV=1, EXECV=2), dict(DIMV=4, REAL_T="float", ORDERV=0, AUTOBS=0, REBUILDV=1, EXECV=0),
+                 # more result values than data values per particle (coordinates only: 1 data value, 2 result values)
+                 dict(DIMV=1, REAL_T="double", ORDERV=0, AUTOBS=0, REBUILDV=1, EXECV=0, NEXTRA=0)]
 
 
 @check("C19", "exploration")
